@@ -41,6 +41,8 @@ ASSUMPTIONS = ['constant coolant properties for the exact (1e-9) identities']
 TOL = 1e-9
 FLOOR = 1e-4
 
+MAX_STEPS = 8000
+
 
 def cases(tier, seed):
     n = 40 if tier == 'quick' else 400
@@ -119,7 +121,7 @@ def run_case(case):
 
     try:
         with drive.scratch() as d, Hooks() as hk:
-            inp, r = drive.build(P, d)
+            inp, r = drive.build(P, d, max_steps=MAX_STEPS)
             if len(r.z) > 3000:
                 res.status('rejected', 'too many steps')
                 res.tag('skipped_too_many_steps')
